@@ -35,6 +35,8 @@ def scan_file(repo, rel):
     m = re.search(r"#\[cfg\(test\)\]\s*mod\s+tests", src)
     if m:
         src = src[:m.start()]
+    # method chains are often broken before the dot (`map\n    .into_iter()`): join them (line numbers become approximate)
+    src = re.sub(r"\n[ \t]*\.(?=[A-Za-z_])", ".", src)
     names = set()
     for rx in DECL:
         names.update(rx.findall(src))
